@@ -584,8 +584,18 @@ def match_candidates_sample(
         cost_matrix_np = cost_matrix.numpy()
         cost_matrix_np[np.isnan(cost_matrix_np)] = np.inf
 
-        # Match.
-        match_src_inds, match_dst_inds = linear_sum_assignment(cost_matrix_np)
+        # Match. Candidate pairs without a usable score (infinite cost, e.g. the NaN line
+        # score of two coincident peaks) get a finite cost exceeding any assignment of
+        # scored pairs, so the problem is always feasible; they are never reported as
+        # matches.
+        is_scored = np.isfinite(cost_matrix_np)
+        unscored_cost = 2.0 * np.abs(cost_matrix_np[is_scored]).sum() + 1.0
+        match_src_inds, match_dst_inds = linear_sum_assignment(
+            np.where(is_scored, cost_matrix_np, unscored_cost)
+        )
+        is_scored_match = is_scored[match_src_inds, match_dst_inds]
+        match_src_inds = match_src_inds[is_scored_match]
+        match_dst_inds = match_dst_inds[is_scored_match]
 
         # Pull out matched scores from the numpy cost matrix.
         match_line_scores_k = -cost_matrix_np[
